@@ -45,7 +45,8 @@ S = Suite(
           "one-argument variants (halo, domain, wind, z, background, measurement point, level, level order, grid shape at an incommensurate halo, "
           "modes, ONE profile component u/v/Kx/Ky/Kz scaled, source values, analytic flag, footprint flag, "
           "precision) of a dispersion and a footprint solve, run before and after their base solve; two solves on the "
-          "same array objects with the source / u / v array edited in place in between",
+          "same array objects with the source / u / v array edited in place in between; the identical call twice with the same "
+          "argument objects (measurement point, domain, modes as ndarrays or tuples)",
     rule="array_equal for equal (solve, threads) inside one process; 1e-12 of the field "
          "maximum against the fresh interpreter and across thread settings; 1e-5 of the "
          "field maximum single vs double",
@@ -369,6 +370,40 @@ def history_inplace(what):
     return Verdict(True, "in-place %s: rel %.2g to fresh" % (what, e), nontrivial=_nontrivial(last))
 
 
+@S.kind("repeat-same-objects")
+def repeat_same_objects(solve, as_arrays):
+    """The identical call twice with the SAME argument objects (a tower-coordinate row, a domain vector kept by the
+    caller; as float64 / int64 ndarrays or as tuples): nothing the caller handed over is changed, and the second result is
+    bit-identical to the first."""
+    import bldfm.config as cfg
+    from bldfm.solver import steady_state_transport_solver
+    _normalise()
+    try:
+        cfg.NUM_THREADS = 1
+        kw = build(solve)
+        if as_arrays:
+            kw["meas_pt"] = np.array(kw["meas_pt"], dtype=float)
+            kw["domain"] = np.array(kw["domain"], dtype=float)
+            kw["modes"] = np.array(kw["modes"], dtype=np.int64)
+        before = {k: np.array(kw[k], copy=True) for k in ("meas_pt", "domain", "modes")}
+        snap = _snapshot(kw)
+        out = []
+        for rep in range(2):
+            grid, conc, flx = steady_state_transport_solver(**kw)
+            out.append(dict(X=np.asarray(grid[0]), Y=np.asarray(grid[1]), Z=np.asarray(grid[2]), conc=np.asarray(conc), flx=np.asarray(flx)))
+            mut = _mutated(kw, snap) + [k for k in before if not np.array_equal(np.asarray(kw[k]), before[k])]
+            if mut:
+                return Verdict(False, "%s (arguments as %s): call %d changed its arguments: %s" % (solve, "ndarrays" if as_arrays else "tuples", rep + 1, mut),
+                               key="argument-mutated")
+    finally:
+        _normalise()
+    d = _bitdiff(out[0], out[1])
+    if d:
+        return Verdict(False, "%s (arguments as %s): the second call with the same argument objects differs in %s; max rel %.3g"
+                       % (solve, "ndarrays" if as_arrays else "tuples", d, _maxrel(out[0], out[1])), key="repeat-not-bit-identical")
+    return Verdict(True, "%s twice, arguments as %s" % (solve, "ndarrays" if as_arrays else "tuples"), nontrivial=_nontrivial(out[1]))
+
+
 @S.kind("fresh-threads")
 def fresh_threads(solve, threads):
     """The same solve in two fresh interpreters, one thread against `threads` threads."""
@@ -416,6 +451,8 @@ def generate(tier, rng):
                 yield "history", dict(seq=[[base, 1, False], [v, 1, False]])
         for what in INPLACE:
             yield "history-inplace", dict(what=what)
+        for s_ in ("A-fp-s", "B-disp-d"):
+            yield "repeat-same-objects", dict(solve=s_, as_arrays=True)
         return
     thorough = tier == "thorough"
     threads = _available([1, 2, 4, 8] if thorough else [1, 4])
@@ -431,6 +468,9 @@ def generate(tier, rng):
                 yield "fresh-threads", dict(solve=s, threads=t)
     for what in INPLACE:
         yield "history-inplace", dict(what=what)
+    for s_ in ("A-fp-s", "B-disp-d", "B-fp-d", "A-disp-d"):
+        for arr in (True, False):
+            yield "repeat-same-objects", dict(solve=s_, as_arrays=arr)
     # near-twin pairs, both orders; the later solve on 1 thread and on several
     for base, variants in VARIANTS.items():
         for v in variants:
